@@ -470,6 +470,7 @@ class Watcher(object):
                        "time": time.time(),
                        "exit_code": process.returncode()}
                 self.notify_event("reap", msg)
+                self._forget_output(process)
                 process.stop()
                 # We ignore the hook result
                 self.call_hook("after_reap", process_status=None, **msg)
@@ -502,6 +503,7 @@ class Watcher(object):
         # if the process is dead or a zombie try to definitely stop it.
         process_status = process.status
         if process_status in (DEAD_OR_ZOMBIE, UNEXISTING):
+            self._forget_output(process)
             process.stop()
 
         logger.debug('reaping process %s [%s]', pid, self.name)
@@ -511,6 +513,13 @@ class Watcher(object):
         self.notify_event("reap", msg)
         # We ignore the hook result
         self.call_hook("after_reap", process_status=process_status, **msg)
+
+    def _forget_output(self, process):
+        # process.stop() closes the pipes: a handler left registered for
+        # their descriptors makes the loop refuse the next process that gets
+        # the same numbers (in any watcher), whose output is then lost
+        if self.stream_redirector:
+            self.stream_redirector.remove_redirections(process)
 
     @util.debuglog
     def reap_processes(self):
